@@ -336,6 +336,42 @@ pub fn check(rec: &RunRecord) -> Vec<Violation> {
     // A run that was cut off by the step limit is incomplete: what must have happened "by the end" is not judged.
     let clean_end = matches!(sc.ending, Ending::Stop | Ending::Timeout) && !rec.store_fault_fired && !rec.step_limit_hit;
 
+    // ---------------- C02: the map the lane actually holds (read back with get_map at the end of a control
+    // command) equals the fold of the changes its lifecycle handlers were told about.
+    if let Some(evs) = rec.truth.first() {
+        let mut maps: BTreeMap<&str, BTreeMap<String, i32>> = BTreeMap::new();
+        for (step, ev) in evs {
+            match ev {
+                TruthEv::Restored { map, bmap, tmap, mstore, .. } => {
+                    maps.insert("map", map.iter().map(|(k, v)| (k.to_string(), *v)).collect());
+                    maps.insert("bmap", bmap.iter().map(|(k, v)| (k.to_string(), *v)).collect());
+                    maps.insert("tmap", tmap.iter().map(|(k, v)| (k.to_string(), *v)).collect());
+                    maps.insert("mstore", mstore.iter().map(|(k, v)| (k.to_string(), *v)).collect());
+                }
+                TruthEv::Update { item, key, value } => {
+                    maps.entry(item).or_default().insert(key.clone(), *value);
+                }
+                TruthEv::Remove { item, key } => {
+                    maps.entry(item).or_default().remove(key);
+                }
+                TruthEv::Clear { item } => maps.entry(item).or_default().clear(),
+                TruthEv::MapSnap { item, map } => {
+                    let folded = maps.entry(item).or_default();
+                    if folded != map {
+                        out.push(Violation::new(
+                            "C02",
+                            "C02.lane_state",
+                            "handlers_disagree_with_map",
+                            format!("item {item} at step {step}: the lane holds {:?} but the changes reported to its lifecycle handlers add up to {:?}", map, folded),
+                        ));
+                        *folded = map.clone();
+                    }
+                }
+                _ => {}
+            }
+        }
+    }
+
     // Frames of the first incarnation grouped by (peer, lane).
     let mut by_pl: BTreeMap<(u32, String), Vec<&Frame>> = BTreeMap::new();
     for f in rec.hist.frames.iter().filter(|f| f.epoch == 0) {
@@ -424,6 +460,9 @@ pub fn check(rec: &RunRecord) -> Vec<Violation> {
                     n_synced += 1;
                     if !linked {
                         out.push(Violation::new("C04", "C04.synced_outside_link", "", format!("peer {peer} lane {lane}: synced at step {} outside a link", f.step)));
+                        // The same observation is the first clause of C03: a remote that syncs receives linked,
+                        // then events, then synced.
+                        out.push(Violation::new("C03", "C03.session", "synced_without_linked", format!("peer {peer} lane {lane}: synced at step {} was not preceded by linked", f.step)));
                     }
                     if n_synced > syncs_started {
                         out.push(Violation::new("C04", "C04.synced_unrequested", "", format!("peer {peer} lane {lane}: synced #{n_synced} at step {} but only {syncs_started} sync requests", f.step)));
@@ -1103,7 +1142,8 @@ pub fn check_persistence(rec: &RunRecord) -> Vec<Violation> {
     });
     let Some((val, tval, vstore, tvstore, map, bmap, tmap, smap, mstore)) = restored else {
         // The second incarnation did not even start.
-        if rec.agent_ends.get(1).map(|e| e.is_some()).unwrap_or(false) || rec.quiescent2_step.is_some() {
+        // With an injected read error the restart may fail; it must not succeed with lost state (judged below).
+        if !rec.restart_read_fault_fired && (rec.agent_ends.get(1).map(|e| e.is_some()).unwrap_or(false) || rec.quiescent2_step.is_some()) {
             out.push(Violation::new("C05", "C05.restart_failed", "", format!("the restarted agent never ran on_start: {:?}", rec.agent_ends.get(1))));
         }
         return out;
